@@ -231,6 +231,7 @@ def run(tape, scenario):
 
     violations = []
     failure = None
+    refused = []
     with env:
         try:
             env.run(main)
@@ -238,6 +239,9 @@ def run(tape, scenario):
             failure = "timeout"
         except (SimStall, BaseExceptionGroup, Exception) as e:
             failure = f"{type(e).__name__}: {e}"
+            if isinstance(e, AssertionError) or (
+                    isinstance(e, BaseExceptionGroup) and e.subgroup(AssertionError) is not None):
+                refused.append(failure)
         if env.stall is not None and env.stall.fired and failure is None:
             failure = f"stall in {env.stall.fired}"
         loop_exc = env.loop_exceptions()
@@ -245,7 +249,13 @@ def run(tape, scenario):
     def viol(rule, detail, **params):
         violations.append({"rule": rule, "params": params, "detail": detail})
 
-    if failure is not None:
+    if refused:
+        # an assertion of the library about an address: the master drew an address inside
+        # the configured range and then refused to work with it
+        viol("assigned-address-refused",
+             f"range ({lo},{hi}); writes so far {[(k, v) for k, v, *_ in writes][-4:]}: "
+             f"{refused[0][:200]}", parallel=parallel)
+    elif failure is not None:
         # e.g. scan_serial_numbers and initialize racing on the same terminal, or the
         # (probability-zero) constant-PRNG spin: nothing the property speaks about
         world.count("c25/run-ended-with-" + failure.split(":")[0])
